@@ -312,7 +312,11 @@ def prep_trace(lines, keep):
     return [json.dumps(e) for e in out]
 
 
-WHAT = {"full": "full-copy deserialization of a recorded stream did not return the serialized value / consume it",
+WHAT = {"rret": "the value returned by the real full-copy reader, or the position it stopped at, is not the reader "
+                "machine's on the same bytes (value serialized / every byte consumed)",
+        "ralign": "an alignment request of the real full-copy reader (unit / position / skip) is not the machine's",
+        "rd": "a read_exact call of the real full-copy reader (position / length) is not the machine's next fetch",
+        "full": "full-copy deserialization of a recorded stream did not return the serialized value / consume it",
         "eps": "ε-copy deserialization of a recorded stream did not return the serialized value, or a borrowed part "
                "is not a block the serializer wrote",
         "rows": "the rows recorded by serialize_with_schema are not the rows of the serializer machine",
@@ -338,26 +342,45 @@ def trace_validation(pid, tier, seed, V, tag):
     V.cov["recorded_runs"] = acc + rej
     V.cov["recorded_runs_accepted"] = acc
     V.cov["recorded_events"] = nev
+    # the full-copy reader, call by call (Trace_Read.tla)
+    if pid in READ_TRACE_MINE:
+        rl = [x for x in open(raw).read().splitlines() if re.search(r'"ev":\s*"r(init|d|align|ret)"', x)]
+        rpath = os.path.join(WORK, tag, f"rtrace_{pid}.ndjson")
+        open(rpath, "w").write("\n".join(rl) + "\n")
+        racc, rrej = validate_ser_traces(rpath, tag, V, pid, READ_TRACE_MINE[pid], module="Trace_Read")
+        V.cov["traces_validated_against_impl"] += racc
+        V.cov["recorded_reader_runs"] = racc + rrej
+        V.cov["recorded_reader_runs_accepted"] = racc
+        V.cov["recorded_reader_events"] = len(rl)
 
 
-def validate_ser_traces(path, tag, V, pid, mine):
+# which rejected reader-trace events are whose alarm: the returned value is C01's; alignment requests, positions
+# and full consumption are C07's; a read_exact of another length at the right place is drift of the model's grain
+READ_TRACE_MINE = {"C01": {"rret"}, "C07": {"ralign", "rret"}}
+
+
+def validate_ser_traces(path, tag, V, pid, mine, module="Trace_Ser"):
     from .cursor import split_runs
-    runs = split_runs(path)
+    runs = split_runs(path, first="rinit" if module == "Trace_Read" else "init")
     consts = {"UsizeBytes": 8, "ZstUnit": 1, "VLevel": 1, "TupleRangeConstTrue": False, "BugSliceFree": False,
               "SinkGrain": "call", "SinkFaulty": False, "MaxFaults": 0}
+    invs = ["Furthest", "TPosCounts", "TBlockAligned"]
+    if module == "Trace_Read":
+        consts.update({"BugCFlowTags": False, "BugOptTag": False, "BugArray0": False, "BugZstSlice": False,
+                       "BugZstNoAlign": False, "ReaderGrain": "call", "ReaderFaulty": False, "MaxRFaults": 0})
+        invs = ["Furthest", "TInBounds"]
     accepted = rejected = 0
     pending = runs
     rounds = 0
     while pending and rounds < 25:
         rounds += 1
-        p = os.path.join(WORK, tag, f"tser_{pid}_{rounds}.ndjson")
+        p = os.path.join(WORK, tag, f"{module.lower()}_{pid}_{rounds}.ndjson")
         with open(p, "w") as f:
             for r in pending:
                 f.writelines(r)
         cfg = os.path.join(WORK, tag, "tser.cfg")
-        write_cfg(cfg, consts, init="TInit", next_="TNext", invariants=["Furthest", "TPosCounts", "TBlockAligned"],
-                  extra="POSTCONDITION Accepted")
-        r = tlc("Trace_Ser", cfg, tag, env={"TRACE": p}, workers=1, timeout=3000,
+        write_cfg(cfg, consts, init="TInit", next_="TNext", invariants=invs, extra="POSTCONDITION Accepted")
+        r = tlc(module, cfg, tag, env={"TRACE": p}, workers=1, timeout=3000,
                 java_opts=["-Xss1g", "-Dtlc2.tool.queue.IStateQueue=StateDeque"])
         V.add_tlc(r)
         if r.violated:
